@@ -122,6 +122,16 @@ def gen_driver(proj, r, f, fi, contract, strcap):
     for spec in r.get('replace_contracts', []):
         ghosts(T.Contract(T.contract_path(spec)))
     ghosts(contract)
+    # ghost captures of locals (R21): declared so that the clauses compile; they are observable natively only when the job supplies a
+    # replay_ghost statement that sets them from the *specification* (e.g. d = remquo(x, 90)); otherwise clauses mentioning them are skipped
+    capnames = [g[0] for g in contract.captures] + [g[1] for g in contract.captures_before] + [g[0] for g in contract.captures_end]
+    captypes = [g[3] for g in contract.captures] + [g[3] for g in contract.captures_before] + [g[2] for g in contract.captures_end]
+    declared = '\n'.join(L)
+    for gname, ctype in zip(capnames, captypes):
+        if not re.search(r'^[ \t]*(?:static\s+)?(?:unsigned\s+|long\s+)*(?:int|double|float|unsigned|long|_Bool|bool|size_t|char)\b[^;()#]*\b%s\b\s*[;,=]' % re.escape(gname), declared, re.M):
+            L.append('static %s %s;' % (ctype.replace('_Bool', 'bool'), gname))
+    rg_text = ' '.join(r.get('replay_ghost', []))
+    unobservable = [g for g in capnames if not re.search(r'\b%s\s*=' % re.escape(g), rg_text)]
     L.append('int main() {')
     for k in ('verif_ghost_idx', 'verif_ghost_idx2', 'verif_ghost_idx3', 'verif_ghost_idx4'):
         if k in inp:
@@ -255,6 +265,10 @@ def gen_driver(proj, r, f, fi, contract, strcap):
         L.append('#endif')
     L.append('#ifdef VERIF_EVAL_CLAUSES')
     for cid, e in ens2:
+        hid = [g for g in unobservable if re.search(r'\b%s\b' % re.escape(g), e)]
+        if hid:
+            L.append('  std::printf("CLAUSE %s not-observable-natively (mentions the ghost capture %s of a local variable)\\n");' % (cid, ', '.join(hid)))
+            continue
         L.append('  std::printf("CLAUSE %s %%d\\n", (int)(%s));' % (cid, ' '.join(e.split())))
     L.append('#endif')
     L.append('  std::printf("DONE\\n"); return 0; }')
